@@ -42,6 +42,7 @@ class Run(object):
         self.extra = {}
         self.classes = collections.OrderedDict()   # class key -> first failure
         self.class_counts = collections.Counter()
+        self.replay_watchdog_s = 30
 
     # ------------------------------------------------------------------ accumulation
     def add_failures(self, fails):
@@ -59,6 +60,9 @@ class Run(object):
         self.nontrivial += part.get("nontrivial", 0)
         self.outcomes.update(part.get("outcomes", {}))
         self.add_failures(part.get("failures", []))
+        if part.get("skipped_after_timeouts"):
+            self.caps_hit.append("%d case(s) skipped in a chunk after two watchdog expiries" %
+                                 part["skipped_after_timeouts"])
         for s in part.get("samples", []):
             if len(self.samples) < 6:
                 self.samples.append(s)
@@ -101,7 +105,10 @@ class Run(object):
                 again = []
                 for _ in range(2):
                     try:
-                        again.append(sorted(class_key(x) for x in reproduce(f)))
+                        again.append(sorted(class_key(x) for x in env.with_watchdog(
+                            lambda: reproduce(f), self.replay_watchdog_s)))
+                    except env.Timeout:
+                        again.append(["<replay did not terminate within %ds>" % self.replay_watchdog_s])
                     except Exception as exc:  # pragma: no cover
                         again.append(["<replay raised %s: %s>" % (type(exc).__name__, exc)])
                 rec["reproduced"] = [k in a for a in again]
